@@ -41,15 +41,21 @@ def generate(seed, tier):
     for _ in range(rng.randint(2, 5)):
         lim = None
         det = None
+        spec = gen_small(rng)
         if faulty:
             r = rng.random()
             if r < 0.25:
                 lim = 1e-9
             elif r < 0.4:
                 det = rng.choice([1e-7, 1e-5, 1e-4])
-            elif r < 0.6:
+            elif r < 0.55:
+                # a budget that often stops the search after a first solution, before optimality is proven:
+                # needs a somewhat larger instance (the exact optimum is then replaced by bounds)
+                det = rng.choice([1e-5, 2e-5, 3e-5])
+                spec = gen_instance(rng, max_jobs=5, max_machines=4, max_ops=5, flexible=False, positive=True, degenerate=False, min_jobs=4, recycled=0)
+            elif r < 0.7:
                 lim = 30.0
-        ops.append(["solve", gen_small(rng), "call" if rng.random() < 0.5 else "solve", lim, det])
+        ops.append(["solve", spec, "call" if rng.random() < 0.5 else "solve", lim, det])
     # deliberately large-then-small so that leftovers would show
     if rng.random() < 0.5:
         ops.sort(key=lambda o: -n_ops(o[1]))
@@ -139,7 +145,8 @@ def execute(case, ctx):
         ctx.check(md.get("solved_by") == "ORToolsSolver", "metadata_fields", lambda: f"{what}: solved_by {md.get('solved_by')!r}", field="solved_by")
         ctx.check(isinstance(md.get("elapsed_time"), float) and md["elapsed_time"] >= 0, "metadata_fields", lambda: f"{what}: elapsed_time {md.get('elapsed_time')!r}", field="elapsed_time")
         ctx.check((md.get("status") == "optimal") == (raw == int(cp_model.OPTIMAL)), "metadata_fields", lambda: f"{what}: status {md.get('status')!r} but raw CP-SAT status {raw}", field="status_vs_raw")
-        opt = bench_meta["optimum"] if bench else opt_makespan(jobs)
+        exact = bench or n <= 9
+        opt = bench_meta["optimum"] if bench else (opt_makespan(jobs) if exact else lower_bounds(jobs))
         lb = max(lower_bounds(jobs), bench_meta["lower_bound"]) if bench else lower_bounds(jobs)
         if bench:
             ctx.check(bench_meta["lower_bound"] <= mk, "never_below_lower_bound", lambda: f"{what}: makespan {mk} below the recorded lower bound {bench_meta['lower_bound']} of {bench}")
@@ -147,7 +154,8 @@ def execute(case, ctx):
                 ctx.check(mk <= bench_meta["upper_bound"], "optimal_means_optimal", lambda: f"{what}: optimal makespan {mk} above the recorded upper bound {bench_meta['upper_bound']} of {bench}")
         ctx.check(mk >= opt and mk >= lb, "never_below_lower_bound", lambda: f"{what}: makespan {mk} below optimum {opt} / lower bound {lb}")
         if md.get("status") == "optimal" or not limited:
-            ctx.check(mk == opt, "optimal_means_optimal", lambda: f"{what}: status {md.get('status')} with makespan {mk}, independent optimum {opt}")
+            if exact:
+                ctx.check(mk == opt, "optimal_means_optimal", lambda: f"{what}: status {md.get('status')} with makespan {mk}, independent optimum {opt}")
             if not limited:
                 ctx.check(md.get("status") == "optimal", "optimal_means_optimal", lambda: f"{what}: no limit in force but status {md.get('status')!r}")
             for rname in RULES:
